@@ -62,6 +62,9 @@ class Ctx:
                 os.killpg(p.pid, signal.SIGKILL)
             except Exception:
                 pass
+        if os.environ.get("VERIF_KEEP"):
+            log("scratch kept: " + self.scratch)
+            return
         shutil.rmtree(self.scratch, ignore_errors=True)
 
     def path(self, *a):
@@ -121,7 +124,7 @@ class Ctx:
 
     # -------------------------------------------------------------------- TLC
     def tlc(self, module, cfg, name=None, workers=None, timeout=900, extra=None, simulate=None,
-            expect_violation=False, java_opts=None):
+            expect_violation=False, java_opts=None, files=None):
         """Runs TLC on spec/<module>.tla with the given cfg text in a private
         work dir. Returns dict(rc, out, generated, distinct, violated, workdir)."""
         name = name or module
@@ -131,6 +134,9 @@ class Ctx:
             shutil.copy(f, wd)
         with open(os.path.join(wd, name + ".cfg"), "w") as f:
             f.write(cfg)
+        for fn, content in (files or {}).items():
+            with open(os.path.join(wd, fn), "w") as f:
+                f.write(content)
         cmd = ["tlc", "-workers", str(workers or NCPU), "-metadir", os.path.join(wd, "md"),
                "-config", name + ".cfg"]
         if simulate:
@@ -147,7 +153,7 @@ class Ctx:
         m = re.findall(r"(\d+) states generated, (\d+) distinct states found", out)
         if m:
             res["generated"], res["distinct"] = int(m[-1][0]), int(m[-1][1])
-        m = re.search(r"Invariant (\S+) is violated", out)
+        m = re.search(r"Invariant (\S+) is violated", out) or re.search(r"The invariant of (\S+) is equal to FALSE", out)
         if m:
             res["violated"] = m.group(1)
         m2 = re.search(r"(Temporal properties were violated|Action property (\S+) is violated|is violated by the initial state)", out)
